@@ -916,12 +916,12 @@ def run(ctx):
     quick = ctx.tier == "quick"
     rng = random.Random(ctx.seed)
     consts = {"W": LATW, "H": LATH, "MaxN": 4 if quick else 5,
-              "Es": {1, 3, 5, 9, 11, 17} if quick else {1, 3, 5, 9, 11, 17, 19, 21, 27},
-              "FluxPats": {"zig", "tie", "neg"} if quick else {"down", "neg", "zig", "tie", "flat"}}
+              "Es": {1, 3, 5, 9, 11, 17} if quick else {1, 3, 5, 9, 11, 17, 21},
+              "FluxPats": {"zig", "tie", "neg"} if quick else {"neg", "zig", "tie", "flat"}}
     res = ctx.tlc("MC_Regroup", common.cfg(
         spec="Spec", constants=consts,
         invariants=["WellPosed", "PartitionThm", "ChainThm", "ComponentsThm", "PermInvariantThm",
-                    "LabelsThm", "LabelsPermThm"], deadlock=False), coverage=True)
+                    "LabelsThm", "LabelsPermThm"], deadlock=False), coverage=True, timeout=5400)
     ctx.require_actions(res, ["Pick", "Group", "Label"], "MC_Regroup")
     cases = [p for p in res.printed if "pts" in p]
     uniq = {(tuple(c["pts"]), tuple(c["flux"]), c["E"]): c for c in cases}
